@@ -3,7 +3,7 @@ TB = "python ast + sa/ engine (own CFG, call graph, abstract evaluator) + refere
 claim(
     "C20",
     'typestate / must-pass-through on the statement CFG (acquire-release pairing incl. exceptional exits, no release after a failed '
-    'acquire), effect ownership (subprocess whitelist), call-graph reachability (no file read behind Object.lines)',
+    'acquire), effect ownership (subprocess whitelist), call-graph reachability (no file read behind Object.lines); spawn sites in private helpers of the git module are lifted to the helpers\' call sites; cli.check evaluated with recording stand-ins',
     'Structural necessary conditions of C20 decided on every path of the current source: temporary worktree and branch are released on '
     "all exits after a successful acquire with the acquire's own operands and never after a failed one, cleanup is forced, only "
     'whitelisted git sub-commands are ever spawned and only from git.py, loads happen inside the context manager, and source lines are '
@@ -13,7 +13,7 @@ claim(
 claim(
     "C15",
     'effect ownership (sink inventory), guarded call-graph reachability with constant propagation of the inspection flags, typestate of '
-    'sys.path on the CFG including local aliases of the list object, handler tables (exception discipline)',
+    'sys.path on the CFG including local aliases of the list object, handler tables (exception discipline); GriffeLoader._load_module evaluated with the loading step raising each failure',
     'On every call path of the current source: with allow_inspection=force_inspection=False no path from the loader entry points '
     'reaches dynamic_import, the inspector or any code-executing call; such calls exist only at tabled owner sites; every compile() is '
     'AST-only; sys.path is replaced only inside a save/replace/restore context manager whose restore runs on every exit, and no name '
@@ -24,13 +24,15 @@ claim(
 claim(
     "C06",
     "typestate on call-graph cycles (visited-set guard / re-entrancy flag pairing on the CFG), exception-flow analysis "
-    "(may-raise summaries over the call graph, hierarchy-aware handlers) for alias dereference sites, store-ordering dominance; "
+    "(may-raise summaries over the call graph, hierarchy-aware handlers) for alias dereference sites, interprocedural through private helpers (every call site must discharge the site); "
     "bounded-exhaustive abstract evaluation of griffe's own code (the checker's evaluator interprets the ASTs of the current source on an "
     "enumerated finite domain): Alias.resolve_target / final_target on every alias graph over three names (four in the thorough tier)",
     "Structural reasons behind C06 decided on every path: each recursion that walks the import/alias/inheritance graph is cut by a "
-    "membership test + insertion on the same key and collection (or the re-entrancy flag, reset in a finally); the resolved target is "
-    "stored only after the nested chain resolved; only the two alias error types are raised; every dereference of a possibly-alias "
-    "member in loader/merger/set_member is guarded, de-aliased, or handled for both errors; the fixpoint loop frame is intact. "
+    "membership test + insertion on the same key and collection (or the re-entrancy flag, reset in a finally; Class.mro on five cycle shapes by evaluation); "
+    "only the two alias error types are raised; every dereference of a possibly-alias "
+    "member in loader/merger/set_member is guarded, de-aliased, handled for both errors, or sits in a private helper all of whose call sites do so. "
+    "The fixpoint loop of resolve_aliases is decided on behaviour with a recording load(): failures remembered, stops when a pass changes nothing, max_iterations, "
+    "`external` in its three values, a loaded package that imports from another one, a private sibling that star-imports back. "
     "Decided on every graph of real objects, imports of each other / of themselves / of something missing and aliases created already "
     "linked (as wildcard expansion does), under every order of resolve_target() calls (610 histories quick, about 17000 thorough): only "
     "the two alias errors are raised, a call that returns leaves the whole chain resolved, a call that raises leaves the alias unresolved, "
@@ -40,7 +42,7 @@ claim(
     "rounds of resolve_aliases without raising, the second round changes nothing, and no imported alias is left resolved with an "
     "unresolvable chain, resolve_aliases hands back exactly the imports that cannot be resolved, star imports through another name of a module "
     "work, target paths may run through other aliases; no recursion between properties passes through an alias proxy; the dataclasses extension (run by load()) "
-    "dereferences no possibly-alias member unguarded. Several packages loaded in different orders and external=True loads are not decided.",
+    "dereferences no possibly-alias member unguarded. Several packages loaded in different orders are not decided; external loads only through the ten rows above.",
     TB + "; tabled dereference exceptions each carry a reason in sa/rules/C06.py",
 )
 claim(
@@ -48,13 +50,11 @@ claim(
     "bounded-exhaustive abstract evaluation of griffe's own code (the checker's evaluator interprets the ASTs of the current source on "
     'an enumerated finite domain): every operation sequence up to the bound (20 operations: moving a subtree, set / delete by name, dotted path, tuple '
     'and item syntax, with objects, aliases, dangling and self-targeting aliases, alias resolution) on a universe built with the '
-    "models' own constructors, against a dictionary model; effect ownership of members stores; store/parent pairing, alias registration "
-    'and retargeting typestate on the CFG',
+    "models' own constructors, against a dictionary model; effect ownership of members stores (through private helpers of the mixins module)",
     'Decided after every history of up to 2 operations (3 in the thorough tier, 4368 histories): no operation raises except KeyError '
     "for a key the model lacks, every member's parent is its container, dotted / tuple / chained lookups return the model's object, "
     'deleted members are gone, aliases registered on a replaced object follow the replacement, every resolved alias is listed by its '
-    'target (at the end of a chain of aliases too) under its current path, no alias targets itself; a module replaced by its stubs counterpart (either order, in a collection or a package) keeps the aliases registered on it. Plus on every path: members stores only in the mixins, parent / collection '
-    'linking after each store, self-target test before the target store. Not decided: longer histories, random ones.',
+    'target (at the end of a chain of aliases too) under its current path, no alias targets itself; a module replaced by its stubs counterpart (either order, in a collection or a package) keeps the aliases registered on it; an alias moved to another container or created with its target object is listed under its new path; `alias.target = ` itself / another object at its own path is refused and leaves the alias as it was; a portion of a namespace (sub-)package is replaced, not merged; empty keys are rejected by all six operations. Plus structurally: members stores only in the mixins (or their private helpers). Not decided: longer histories, random ones.',
     TB + '; the universe: a collection, two modules, a class, a function, an attribute, two aliases and an alias of an alias',
 )
 claim(
@@ -90,10 +90,10 @@ claim(
 )
 claim(
     "C11",
-    "dominance on the CFG (public frontier), finite-domain abstract evaluation of the dispatch / removal / base / value rules into decision "
+    "finite-domain abstract evaluation of the member walk (own and inherited members on both sides), of the dispatch / removal / base / value rules into decision "
     "tables and of Breakage.explain on every breakage class x payload x style, alias-dereference exception discipline (exception-flow "
-    "summaries) in the walk and in the Breakage helpers, registry agreement, def-use of the CLI's loads and exit code",
-    "On every path: every breakage of the member walk is dominated by is_public and the walk uses all_members on both sides; the type "
+    "summaries, interprocedural through private helpers and module-level dispatch tables) in the walk and in the Breakage helpers, registry agreement, cli.check evaluated with recording stand-ins (36 rows)",
+    "Decided: the member walk reports on public old members only and looks members up through all_members on both sides (an inherited member is compared, and is not removed when the new class inherits it too); the type "
     "dispatch table is total and routes alias/kind-mismatch/same-kind cases as documented; removal, base and value rules equal their "
     "tables; no alias error can escape the comparison or the rendering of a breakage reported against an unresolvable re-export (which "
     "names the alias's own public path); an object already compared and reached again through another member is compared against that "
@@ -112,8 +112,8 @@ claim(
     'args): names, order, kinds, annotation-per-parameter and default-per-parameter equal inspect.signature of the function compiled '
     'from the same text. For nine kinds of definition (async property, async method, property, cached property, method, static / class '
     'method, overloaded function, property with setter, annotated property with setter, lambda defaults): kind, labels, parameters, overloads and setter are as CPython sees them and '
-    'are the same alone and after any other definition in the class body (no state leaks between definitions). Plus consumer '
-    "destructuring order and the inspector's kind bijection.",
+    'are the same alone and after any other definition in the class body (no state leaks between definitions). Plus the lambda consumer of get_parameters on six lambda shapes '
+    "and the inspector's kind bijection.",
     TB + "; inspect.signature / real class bodies executed by the rule are synthesised there (never griffe's or an analysed project's code)",
 )
 claim(
@@ -135,12 +135,11 @@ claim(
     'table agreement between writers and readers (keys per kind, optional vs required, enum rebuild, expression fields); '
     "bounded-exhaustive abstract evaluation of griffe's own code (the checker's evaluator interprets the ASTs of the current source on "
     'an enumerated finite domain): the decoder driven by the real json object hook on a writer-shaped document (scope re-attachment of '
-    'every name, dispatch on dictionaries, members named `kind` / `cls`); effect rule for the CLI package arguments',
+    'every name, dispatch on a dictionary of every kind, members named `kind` / `cls`); the writers brought to a normal form (literal loops unrolled, dict helpers inlined) before their key table is read; cli.dump evaluated with recording stand-ins (12 rows)',
     'Decided: per kind every key the reader requires is written, every key the writer may omit is read optionally, enums are rebuilt, '
     'expression dataclasses round-trip field by field; after a reload every name in bases, decorators, signatures, annotations and '
     'values - at any nesting depth, dotted chains included - is attached to the scope the visitor builds it in; an expression '
-    'dictionary carrying `kind` is an expression, members named `kind` or `cls` load; docstrings reload as written, empty ones included; encoder options are forwarded by both CLI arms '
-    'and `dump` never uses its path-or-name arguments as module names. Not decided: equality of arbitrary reloaded trees; full '
+    'dictionary carrying `kind` is an expression, members named `kind` or `cls` load; docstrings reload as written, empty ones included; `griffe dump` serialises what was loaded with the requested `full`, sorted keys and JSONEncoder, to stdout, one file or one file per package, whether the packages were named or given by path, and exits 0 when all were loaded. Not decided: equality of arbitrary reloaded trees; full '
     '(non-minimal) dumps are an open finding.',
     TB + '; json.loads with the evaluated json_decoder as object hook',
 )
@@ -212,7 +211,7 @@ claim(
     "C07",
     "bounded-exhaustive abstract evaluation of griffe's own code (the checker's evaluator interprets the ASTs of the current source on "
     "an enumerated finite domain): Class.mro / c3linear_merge on every hierarchy up to the bound against type()'s MRO; inherited "
-    'members; resolved bases; staleness table (derived views re-read after the state changed, with functools memoisation modelled)',
+    'members; resolved bases; all_members / obj[...] / get_member on a class with inherited and own members; staleness table (derived views re-read after the state changed, with functools memoisation modelled)',
     "Decided: MRO equal to CPython's (or ValueError where CPython refuses) for every hierarchy of up to 4 classes plus the five-class "
     'three-base ones (all of 5 thorough) with every ordered choice of bases, whatever the spelling of the paths; members that are '
     '(un)resolved imports are inherited like definitions; cycles raise and a class without a computable MRO inherits '
@@ -225,7 +224,7 @@ claim(
     "C18",
     "bounded-exhaustive abstract evaluation of griffe's own code (the checker's evaluator interprets the ASTs of the current source on "
     "an enumerated finite domain): _set_dataclass_init on every small dataclass definition against dataclasses' own __init__, and the "
-    'extension run over packages processed one after the other (functools memoisation modelled); call-graph rule for extension loading; '
+    'extension run over packages processed one after the other and over a package with nested / hand-written / plain classes (functools memoisation modelled); load_extensions evaluated on six argument lists; '
     'alias analysis of the memoised list',
     'Decided for 1600 definitions (two fields x 11 field forms x decorator options x KW_ONLY positions, single inheritance with and '
     "without overriding, three-level chains, a class whose MRO cannot be computed): the synthesised parameters (names, order, kinds, required-ness) equal those of CPython's "
@@ -274,7 +273,7 @@ claim(
     "C13",
     "finite-domain abstract evaluation of the three parsers (their own ASTs interpreted on enumerated well-formed documents rendered from a model of "
     "sections: every ordered pair of section kinds, five description shapes per item kind, signature-fallback cases for annotations and defaults, Sphinx field orders), table "
-    "agreement (documentation support table vs reader tables; Sphinx prefix order), offset-contract checks backed by the reader summaries of the "
+    "agreement (documentation support table vs reader tables), every Sphinx field name dispatched through the evaluated table of field types, offset-contract checks backed by the reader summaries of the "
     "bounds analysis, typestate on the CFG (admonition title re-assigned between flushes)",
     "Decided for about 500 generated documents per run (Google and Numpy: all ordered pairs of 14 section kinds, multi-paragraph / role / list "
     "descriptions for each item kind, annotations from the signature vs written ones; Sphinx: type given in-line, before, after or not at all): "
